@@ -298,7 +298,7 @@ def bounded_pipeline(seed, tier):
             'failures': list(failures)[:40]}
 
 
-ECHO_REFDES = ('ISA05', 'ISA06', 'ISA07', 'ISA08', 'ISA11', 'ISA12', 'ISA15', 'GS02', 'GS03', 'GS06', 'GS07', 'GE02', 'AK101', 'AK102', 'AK103', 'AK201', 'AK202', 'AK203', 'AK301', 'AK303', 'AK404', 'IK301', 'IK303', 'IK404', 'CTX01', 'CTX02')
+ECHO_REFDES = ('ISA05', 'ISA06', 'ISA07', 'ISA08', 'ISA11', 'ISA12', 'ISA15', 'GS02', 'GS03', 'GS06', 'GS07', 'GE02', 'AK101', 'AK902', 'AK102', 'AK103', 'AK201', 'AK202', 'AK203', 'AK301', 'AK303', 'AK404', 'IK301', 'IK303', 'IK404', 'CTX01', 'CTX02')
 
 
 def _echo_refdes(refdes):
